@@ -48,6 +48,63 @@ type verifC3xS3 struct {
 	putKeys     []string
 	deleted     []string
 	onEOF       func(key string) // called (outside the lock) by a GetObject body right before it reports EOF: a schedule gate
+	script      []*verifC3xFault // scripted outcomes for any op (see outcome); a request context may carry its own script
+	gate        func(op string, part int32) // schedule gate: called (outside the lock) by every op once the request body was read and the scripted outcome is known, before the op takes effect
+	partCalls   int // UploadPart calls that reached the store step (diagnostics)
+}
+
+// verifC3xFault scripts the outcome of S3 calls: op = PutObject | CreateMultipartUpload | UploadPart |
+// CompleteMultipartUpload | AbortMultipartUpload | DeleteObject | GetObject; part = part number (UploadPart; 0 = any);
+// once = only the first matching call fails (a transient fault); before = the call fails BEFORE the request body is
+// read ("fail-before-read": connection refused, DNS, request never sent), otherwise AFTER S3 consumed the body
+// ("fail-after-read": 500 InternalError, response timeout, reset mid-transfer) — what real S3 clients see most often.
+type verifC3xFault struct {
+	op     string
+	part   int32
+	once   bool
+	before bool
+	used   bool
+}
+
+type verifC3xCtxKey struct{}
+
+// verifC3xWithScript attaches a request-scoped fault script to a context (the proxy passes r.Context() down to the S3 seam).
+func verifC3xWithScript(ctx context.Context, script []*verifC3xFault) context.Context {
+	return context.WithValue(ctx, verifC3xCtxKey{}, script)
+}
+
+// outcome returns the scripted fault for this call (nil = the call proceeds normally) and consumes a `once` entry.
+func (f *verifC3xS3) outcome(ctx context.Context, op string, part int32) *verifC3xFault {
+	f.mu.Lock()
+	defer f.mu.Unlock()
+	lists := [][]*verifC3xFault{f.script}
+	if cs, ok := ctx.Value(verifC3xCtxKey{}).([]*verifC3xFault); ok {
+		lists = append(lists, cs)
+	}
+	for _, l := range lists {
+		for _, e := range l {
+			if e.op != op || (e.part != 0 && e.part != part) || (e.once && e.used) {
+				continue
+			}
+			e.used = true
+			return e
+		}
+	}
+	return nil
+}
+
+func (f *verifC3xS3) enter(op string, part int32) {
+	if g := f.gate; g != nil {
+		g(op, part)
+	}
+}
+
+func verifC3xFaultErr(op string, flt *verifC3xFault) error {
+	when := "after-read"
+	if flt.before {
+		when = "before-read"
+	}
+	return fmt.Errorf("verif: %s scripted failure (fail-%s)", op, when)
 }
 
 // verifC3xGateReader delivers the data, then calls hook once before reporting EOF.
@@ -87,6 +144,10 @@ func (e *verifC3xErrReader) Read(p []byte) (int, error) {
 }
 
 func (f *verifC3xS3) CreateMultipartUpload(ctx context.Context, in *s3.CreateMultipartUploadInput, _ ...func(*s3.Options)) (*s3.CreateMultipartUploadOutput, error) {
+	if flt := f.outcome(ctx, "CreateMultipartUpload", 0); flt != nil {
+		return nil, verifC3xFaultErr("CreateMultipartUpload", flt)
+	}
+	f.enter("CreateMultipartUpload", 0)
 	f.mu.Lock()
 	defer f.mu.Unlock()
 	if f.failCreate {
@@ -99,12 +160,22 @@ func (f *verifC3xS3) CreateMultipartUpload(ctx context.Context, in *s3.CreateMul
 }
 
 func (f *verifC3xS3) UploadPart(ctx context.Context, in *s3.UploadPartInput, _ ...func(*s3.Options)) (*s3.UploadPartOutput, error) {
+	flt := f.outcome(ctx, "UploadPart", aws.ToInt32(in.PartNumber))
+	if flt != nil && flt.before {
+		return nil, verifC3xFaultErr("UploadPart", flt)
+	}
+	// like a real S3 client: the request body is consumed whatever the outcome of the call
 	body, err := io.ReadAll(in.Body)
 	if err != nil {
 		return nil, err
 	}
+	f.enter("UploadPart", aws.ToInt32(in.PartNumber))
+	if flt != nil {
+		return nil, verifC3xFaultErr("UploadPart", flt)
+	}
 	f.mu.Lock()
 	defer f.mu.Unlock()
+	f.partCalls++
 	up, ok := f.uploads[aws.ToString(in.UploadId)]
 	if !ok || up.key != aws.ToString(in.Key) {
 		return nil, errors.New("verif: NoSuchUpload")
@@ -123,6 +194,11 @@ func (f *verifC3xS3) UploadPart(ctx context.Context, in *s3.UploadPartInput, _ .
 // CompleteMultipartUpload follows S3: the listed parts must exist with the given ETag and be in
 // strictly ascending part-number order; the object is the concatenation of the LISTED parts.
 func (f *verifC3xS3) CompleteMultipartUpload(ctx context.Context, in *s3.CompleteMultipartUploadInput, _ ...func(*s3.Options)) (*s3.CompleteMultipartUploadOutput, error) {
+	flt := f.outcome(ctx, "CompleteMultipartUpload", 0)
+	f.enter("CompleteMultipartUpload", 0)
+	if flt != nil {
+		return nil, verifC3xFaultErr("CompleteMultipartUpload", flt)
+	}
 	f.mu.Lock()
 	defer f.mu.Unlock()
 	if f.failComplet {
@@ -156,6 +232,11 @@ func (f *verifC3xS3) CompleteMultipartUpload(ctx context.Context, in *s3.Complet
 }
 
 func (f *verifC3xS3) AbortMultipartUpload(ctx context.Context, in *s3.AbortMultipartUploadInput, _ ...func(*s3.Options)) (*s3.AbortMultipartUploadOutput, error) {
+	flt := f.outcome(ctx, "AbortMultipartUpload", 0)
+	f.enter("AbortMultipartUpload", 0)
+	if flt != nil {
+		return nil, verifC3xFaultErr("AbortMultipartUpload", flt)
+	}
 	f.mu.Lock()
 	defer f.mu.Unlock()
 	delete(f.uploads, aws.ToString(in.UploadId))
@@ -163,9 +244,17 @@ func (f *verifC3xS3) AbortMultipartUpload(ctx context.Context, in *s3.AbortMulti
 }
 
 func (f *verifC3xS3) PutObject(ctx context.Context, in *s3.PutObjectInput, _ ...func(*s3.Options)) (*s3.PutObjectOutput, error) {
+	flt := f.outcome(ctx, "PutObject", 0)
+	if flt != nil && flt.before {
+		return nil, verifC3xFaultErr("PutObject", flt)
+	}
 	body, err := io.ReadAll(in.Body)
 	if err != nil {
 		return nil, err
+	}
+	f.enter("PutObject", 0)
+	if flt != nil {
+		return nil, verifC3xFaultErr("PutObject", flt)
 	}
 	f.mu.Lock()
 	defer f.mu.Unlock()
@@ -178,6 +267,9 @@ func (f *verifC3xS3) PutObject(ctx context.Context, in *s3.PutObjectInput, _ ...
 }
 
 func (f *verifC3xS3) GetObject(ctx context.Context, in *s3.GetObjectInput, _ ...func(*s3.Options)) (*s3.GetObjectOutput, error) {
+	if flt := f.outcome(ctx, "GetObject", 0); flt != nil {
+		return nil, verifC3xFaultErr("GetObject", flt)
+	}
 	f.mu.Lock()
 	defer f.mu.Unlock()
 	if f.getMissing {
@@ -202,6 +294,9 @@ func (f *verifC3xS3) GetObject(ctx context.Context, in *s3.GetObjectInput, _ ...
 }
 
 func (f *verifC3xS3) DeleteObject(ctx context.Context, in *s3.DeleteObjectInput, _ ...func(*s3.Options)) (*s3.DeleteObjectOutput, error) {
+	if flt := f.outcome(ctx, "DeleteObject", 0); flt != nil {
+		return nil, verifC3xFaultErr("DeleteObject", flt)
+	}
 	f.mu.Lock()
 	defer f.mu.Unlock()
 	if f.failDelete {
